@@ -1,6 +1,6 @@
 CONSTANTS
  MaxIn = 2
- MaxStart = 3
+ MaxStart = 2
  MaxInit = 2
  Depth = 1
  Shapes = {4}
